@@ -391,6 +391,11 @@ class FnTrans:
             raise Unsupported("%s: cast kind %s" % (self.name, ck))
         if k == "CXXConstructExpr" and len(inner) == 1:
             return self.expr(inner[0], env)         # copy construction of a value type
+        if k == "CXXConstructExpr" and not inner:
+            cls_ = n["type"]["qualType"].replace("const ", "").split("::")[-1].strip()
+            dc_ = self.job.get("default_ctors", {}).get(cls_)
+            if dc_ is None: raise Unsupported("%s: default construction of %s" % (self.name, cls_))
+            return dc_[0], dc_[1], None
         if k == "ArraySubscriptExpr":
             t, ty, p = self.expr(inner[0], env)
             ix = inner[1]
@@ -659,6 +664,13 @@ class FnTrans:
             base, tb, pb = self.expr(me["inner"][0], env)
             if mname == "size" and tb.startswith("List "):
                 return "%s.length" % base, "Nat", pb
+            if mname == "empty" and tb.startswith("List ") and len(inner) == 1:
+                return "%s.isEmpty" % base, "Bool", pb
+            if mname in self.job.get("opaque_methods", {}):
+                # a method the model does not interpret: an explicit function parameter applied to the object and the arguments
+                ln_, rt_ = self.job["opaque_methods"][mname]
+                as_ = [self.expr(x, env) for x in inner[1:]]
+                return "(%s %s)" % (ln_, " ".join([base] + [a_[0] for a_ in as_])), rt_, self.conj(pb, *[a_[2] for a_ in as_])
             if mname == "front" and tb.startswith("List ") and len(inner) == 1:
                 return "(%s.headD default)" % base, self.elem_type(tb)[1], self.conj(pb, "decide (0 < %s.length)" % base)
             if mname == "size" and self.elem_type(tb)[0] == "Array":
